@@ -60,13 +60,20 @@ THEOREMS = {p: [] for p in PROPS}
 MODULES = {p: [] for p in PROPS}
 OBLIG = []
 
-try:  # filled in as the theorem files land
-    from props.backend_theorems import THEOREMS as _T, MODULES as _M, OBLIG as _O
-    THEOREMS.update(_T)
-    MODULES.update(_M)
-    OBLIG = _O
-except ImportError:
-    pass
+# theorem lists are contributed by tools/props/backend_thm_*.py (one per proof bundle): THEOREMS, MODULES, OBLIG
+import glob as _glob
+import importlib.util as _ilu
+for _f in sorted(_glob.glob(os.path.join(os.path.dirname(os.path.abspath(__file__)), "backend_thm_*.py"))):
+    _spec = _ilu.spec_from_file_location(os.path.basename(_f)[:-3], _f)
+    _m = _ilu.module_from_spec(_spec)
+    _spec.loader.exec_module(_m)
+    for _p, _l in getattr(_m, "THEOREMS", {}).items():
+        THEOREMS.setdefault(_p, []).extend(_l)
+    for _p, _l in getattr(_m, "MODULES", {}).items():
+        MODULES.setdefault(_p, []).extend(x for x in _l if x not in MODULES.get(_p, []))
+    for _x in getattr(_m, "OBLIG", []):
+        if _x not in OBLIG:
+            OBLIG.append(_x)
 
 # a property is claimed in MANIFEST.json only once its theorem file exists
 _ALL_MANIFEST = MANIFEST
